@@ -154,7 +154,59 @@ def seed_target(ws_target, kind):
     return False
 
 
-def run_kani(ws, scratch, pkg, insts, tag, extra_args=(), playback=False, jobs=None):
+def discover_unwindset(ws, scratch, pkg, insts):
+    """Per-loop unwind bounds for loops of the REAL code whose trip count is
+    bounded by an instance parameter (e.g. `for j in 0..self.buff.len()`,
+    len <= w-m+1).  Loop ids are read from the goto binary (`cbmc --show-loops`)
+    and matched by source text; unwinding assertions stay on, so a bound that is
+    too small for the current code is reported, never silently truncating."""
+    need = [i for i in insts if i.unwindset]
+    if not need:
+        return "", []
+    tdir = os.path.join(scratch, "kt")
+    seed_target(tdir, "kani-target")
+    first = need[0]
+    cmd = ["cargo", "kani", "-p", pkg, "--target-dir", tdir, "--only-codegen", "--exact", "--harness", first.full_name()]
+    feats = sorted({f for i in insts for f in i.features})
+    if feats:
+        cmd += ["--features", ",".join(feats)]
+    logf = os.path.join(scratch, "kani-codegen-%s.log" % pkg)
+    rc, to = run_cmd(cmd, ws, logf, timeout=1800)
+    if rc != 0:
+        return "", ["codegen for loop discovery failed"]
+    import glob
+    cands = glob.glob(os.path.join(tdir, "kani", "*", "debug", "build", pkg, "*", "out", "*%d%s.out" % (len(first.name), first.name)))
+    cands = [c for c in cands if not c.endswith(".symtab.out")]
+    if not cands:
+        return "", ["goto binary of %s not found" % first.name]
+    cands.sort(key=os.path.getmtime)
+    out = subprocess.run(["cbmc", "--show-loops", cands[-1]], capture_output=True, text=True).stdout
+    loops = re.findall(r"^Loop (\S+):\n\s+file (\S+) line (\d+)", out, re.M)
+    bounds = {}
+    for i in need:
+        for (fsuf, rx, b) in i.unwindset:
+            key = (fsuf, rx)
+            bounds[key] = max(bounds.get(key, 0), b)
+    parts, notes = [], []
+    for (fsuf, rx), b in sorted(bounds.items()):
+        hit = 0
+        for lid, f, line in loops:
+            if not f.endswith(fsuf):
+                continue
+            try:
+                src = open(os.path.join(ws, f)).read().splitlines()[int(line) - 1]
+            except Exception:
+                continue
+            if re.search(rx, src):
+                parts.append("%s:%d" % (lid, b))
+                hit += 1
+        notes.append("unwindset %s /%s/ -> %d loop(s) bound %d" % (fsuf, rx, hit, b))
+    return ",".join(parts), notes
+
+
+def run_kani(ws, scratch, pkg, insts, tag, extra_args=(), playback=False, jobs=None, unwindset=""):
+    if INJ is not None:
+        INJ.set_kani()
     tdir = os.path.join(scratch, "kt")
     seed_target(tdir, "kani-target")
     # result files of a previous package run must not be mistaken for ours
@@ -175,6 +227,8 @@ def run_kani(ws, scratch, pkg, insts, tag, extra_args=(), playback=False, jobs=N
     feats = sorted({f for i in insts for f in i.features})
     if feats:
         cmd += ["--features", ",".join(feats)]
+    if unwindset:
+        cmd += ["--cbmc-args", "--unwindset", unwindset]  # must be the last flag
     logf = os.path.join(scratch, "kani-%s.log" % tag)
     waves = (len(insts) + JOBS - 1) // JOBS
     overall = 600 + tmax * waves + 120
@@ -223,7 +277,12 @@ def write_values(path, values):
             fh.write(" ".join(str(b) for b in v) + "\n")
 
 
+INJ = None
+
+
 def build_replay(ws, scratch, P, release):
+    if INJ is not None:
+        INJ.set_native(REPO)
     tdir = os.path.join(scratch, "rt")
     env = dict(ENV)
     env["RUSTFLAGS"] = "--cfg verif_replay -A warnings"
@@ -331,7 +390,9 @@ def body(args, pid, P, seed, scratch, t_start):
         insts = [i for i in insts if re.search(args.only, i.name)]
     log("[%s] tier=%s seed=%d instances=%d (core %d) tree=%s" % (pid, tier, seed, len(insts), sum(1 for i in insts if i.core), fp))
 
+    global INJ
     inj = inject.Injector(ws, VERIF, scratch)
+    INJ = inj
     try:
         inj.apply(P, insts)
     except inject.InjectError as e:
@@ -349,13 +410,29 @@ def body(args, pid, P, seed, scratch, t_start):
         if i.pkg not in pkgs:
             pkgs.append(i.pkg)
     kani_wall = 0.0
+    unwind_notes = []
+    unwindsets = {}
     for pkg in pkgs:
         pin = [i for i in insts if i.pkg == pkg]
         # longest first so that the tail of the schedule is short
         pin.sort(key=lambda i: -i.cost)
-        rc, to, logf, tdir, dt = run_kani(ws, scratch, pkg, pin, pkg)
+        uws, unotes = discover_unwindset(ws, scratch, pkg, pin)
+        unwind_notes.extend(unotes)
+        unwindsets[pkg] = uws
+        rc, to, logf, tdir, dt = run_kani(ws, scratch, pkg, pin, pkg, unwindset=uws)
         kani_wall += dt
         res, cerr = collect_results(tdir, pin, logf)
+        if uws:
+            # a per-loop bound that is too small for the current code: retry those with the global bound only
+            again = [i for i in pin if res[i.name]["unwind_failed"]]
+            if again:
+                unwind_notes.append("re-ran without per-loop bounds: " + ", ".join(i.name for i in again))
+                rc, to, logf, tdir, dt = run_kani(ws, scratch, pkg, again, pkg + "-nounwindset")
+                kani_wall += dt
+                res2, _ = collect_results(tdir, again, logf)
+                res.update(res2)
+                for i in again:
+                    i.used_unwindset = False
         if cerr:
             compile_errors.append((pkg, cerr))
         if to:
@@ -390,7 +467,7 @@ def body(args, pid, P, seed, scratch, t_start):
     # ---- counterexamples: concrete playback + native replay
     violations, known_hits, unreproduced = [], [], []
     if failed:
-        violations, known_hits, unreproduced = handle_failures(args, pid, P, ws, scratch, failed, results, fp)
+        violations, known_hits, unreproduced = handle_failures(args, pid, P, ws, scratch, failed, results, fp, unwindsets)
 
     for i in insts:
         r = results[i.name]
@@ -410,7 +487,7 @@ def body(args, pid, P, seed, scratch, t_start):
     write_evidence(
         args, pid, P, tier, seed, insts, results, violations, known_hits, t_start, fp,
         note="", extra=dict(extra, kani_wall_s=round(kani_wall, 1), peak_cbmc_rss_mb=wd.peak_kb // 1024,
-                            killed_for_memory=len(wd.killed), unreproduced=unreproduced),
+                            killed_for_memory=len(wd.killed), unreproduced=unreproduced, per_loop_unwind=unwind_notes),
     )
     for k in known_hits:
         log("KNOWN-FINDING: property=%s %s" % (pid, k))
@@ -438,7 +515,7 @@ def body(args, pid, P, seed, scratch, t_start):
     return 0
 
 
-def handle_failures(args, pid, P, ws, scratch, failed, results, fp):
+def handle_failures(args, pid, P, ws, scratch, failed, results, fp, unwindsets):
     known, _fixed = load_known()
     violations, known_hits, unreproduced = [], [], []
     bins = {}
@@ -455,7 +532,8 @@ def handle_failures(args, pid, P, ws, scratch, failed, results, fp):
             r["playback"] = "skipped (same failing checks already replayed on a smaller instance)"
             continue
         budget -= 1
-        rc, to, logf, tdir, dt = run_kani(ws, scratch, inst.pkg, [inst], "pb-" + inst.name, playback=True)
+        rc, to, logf, tdir, dt = run_kani(ws, scratch, inst.pkg, [inst], "pb-" + inst.name, playback=True,
+                                             unwindset=unwindsets.get(inst.pkg, "") if getattr(inst, "used_unwindset", True) else "")
         txt = open(logf, errors="replace").read()
         pbs = kani_parse.parse_playback(txt)
         if not pbs:
@@ -518,7 +596,9 @@ def do_replay_file(args, pid, P, ws, scratch, insts):
         log("replay: harness instance %s is not defined for %s" % (name, pid))
         return 2
     inst = cand[name]
+    global INJ
     inj = inject.Injector(ws, VERIF, scratch)
+    INJ = inj
     try:
         inj.apply(P, [inst])
     except inject.InjectError as e:
